@@ -212,22 +212,23 @@ def check_values(sub, lo, serials, world, out_problem):
     return None
 
 
-def check_lc_subsamples(cat, world):
+def check_lc_subsamples(cat, world, keep=None):
     """Light-cone layout: the stored npstartA/npoutA index the single lc_pid_rv file directly."""
     from . import world as W
     slab = world['slabs'][0]
     lay = W.slab_layout(slab)['A']
     halos, sub = cat.halos, cat.subsamples
-    if len(halos) != len(slab['halos']):
-        return 'row-count', '%d rows, %d halos stored' % (len(halos), len(slab['halos']))
+    kept = [(i, h) for i, h in enumerate(slab['halos']) if keep is None or keep[i]]
+    if len(halos) != len(kept):
+        return 'row-count', '%d rows, %d halos expected' % (len(halos), len(kept))
     if len(sub) != len(lay['recs']):
         return 'subsample-length', 'len(subsamples)=%d, file holds %d records' % (len(sub), len(lay['recs']))
     st = np.asarray(halos['npstartA']).astype(np.int64)
     ct = np.asarray(halos['npoutA']).astype(np.int64)
-    for r, h in enumerate(slab['halos']):
+    for r, (i0, h) in enumerate(kept):
         want = list(h['A'])
-        if ct[r] != len(want) or st[r] != lay['idx'][r][0]:
-            return 'wrong-count', 'row %d: (npstartA, npoutA)=(%d,%d), stored (%d,%d)' % (r, st[r], ct[r], lay['idx'][r][0], len(want))
+        if ct[r] != len(want) or st[r] != lay['idx'][i0][0]:
+            return 'wrong-count', 'row %d: (npstartA, npoutA)=(%d,%d), stored (%d,%d)' % (r, st[r], ct[r], lay['idx'][i0][0], len(want))
         lo, hi = int(st[r]), int(st[r] + ct[r])
         for col in sub.colnames:
             a = np.asarray(sub[col][lo:hi])
